@@ -26,7 +26,10 @@ package redisemu
 
 //@ func dataStoreSet.createDbUnlocked
 //@ prop C14
+//@ guards on
 //@ requires dssOK(dss)
+// C16: the table of databases is only touched under the set's mutex (the constructor, which is not under contract, runs before the set is shared)
+//@ requires [C16] table.locked: mutexheld(dss.mu)
 //@ requires wf: forall j int :: dbsWF(dss, j)
 //@ ensures [C14] wf: forall j int :: dbsWF(dss, j)
 //@ modifies map<int,*dataStore> alloc
@@ -38,6 +41,7 @@ package redisemu
 
 //@ func dataStoreSet.getDb
 //@ prop C14
+//@ guards on
 //@ requires dssOK(dss)
 //@ requires wf: forall j int :: dbsWF(dss, j)
 //@ ensures [C14] wf: forall j int :: dbsWF(dss, j)
@@ -93,6 +97,7 @@ package redisemu
 
 //@ func dataStoreSet.flushDb
 //@ prop C14
+//@ guards on
 //@ requires dssOK(dss) && !held
 //@ requires wf: forall j int :: dbsWF(dss, j)
 //@ requires caller != nil ==> (dscOK(caller) && lockMode(caller))
@@ -112,6 +117,7 @@ package redisemu
 //@ pred dbReady(d *dataStore) = d != nil && d.data != nil && d.waitingClients != nil && d.data.keyspace && d.data.owner == d && !d.data.scratch
 //@ func dataStoreSet.flushAll
 //@ prop C14
+//@ guards on
 //@ safetyprop none
 //@ mode int
 //@ requires dssOK(dss) && !held
